@@ -109,7 +109,7 @@ func budgetOf(thorough bool) time.Duration {
 	if thorough {
 		return 14 * time.Minute
 	}
-	return 70 * time.Second
+	return 80 * time.Second
 }
 
 func deadlineOf(thorough bool) time.Duration {
